@@ -1,4 +1,5 @@
 From Coq Require Extraction.
 From Coq Require Import ExtrOcamlBasic.
-From NV Require Import Base.Witness Index.Bins Index.Chunks.
-Extraction "model.ml" nv_types_witness reg2bin reg2bins optimize_chunks add_chunk.
+From NV Require Import Base.Witness Index.Bins Index.Chunks Index.Layout.
+Extraction "model.ml" nv_types_witness reg2bin reg2bins optimize_chunks add_chunk
+  w_bai read_bai w_gzi read_gzi mkbai mkbref mkmeta.
